@@ -37,7 +37,7 @@ FLAVS = ['multiband', 'multiband_gen', 'narrow', 'mesh', 'multiband_gen', 'multi
 
 
 def plan(tier, seed):
-    n = 96 if tier == 'quick' else 12000
+    n = 900 if tier == 'quick' else 12000
     return [{'idx': i, 'flavour': FLAVS[i % len(FLAVS)]} for i in range(n)]
 
 
